@@ -387,12 +387,17 @@ func runParent(ck Check, tier string, seed int64, jobs int) int {
 	// violations: known-finding suppression, replay files, double replay
 	known := loadKnown(ck.ID)
 	knownHit := map[string]int{}
+	knownEx := map[string]string{}
 	exit := 0
 	nviol := 0
 	seen := map[string]bool{}
 	sort.SliceStable(tot.Violations, func(i, j int) bool { return len(tot.Violations[i].Replay) < len(tot.Violations[j].Replay) })
 	for _, v := range tot.Violations {
 		if e, ok := known[v.Sig]; ok && v.Sig != "" {
+			if knownHit[e.Signature] == 0 {
+				// keep the shortest occurrence as a replayable example of the known finding
+				knownEx[e.Signature] = fmt.Sprintf("e.g. %s replay=%s", v.Desc, writeReplay(ck.ID, v))
+			}
 			knownHit[e.Signature]++
 			continue
 		}
@@ -433,7 +438,7 @@ func runParent(ck Check, tier string, seed int64, jobs int) int {
 	}
 	sort.Strings(ks)
 	for _, s := range ks {
-		fmt.Printf("KNOWN-FINDING: property=%s %s [%s] (%d occurrences in this run)\n", ck.ID, known[s].Text, known[s].ID, knownHit[s])
+		fmt.Printf("KNOWN-FINDING: property=%s %s [%s] (%d occurrences reported in this run; %s)\n", ck.ID, known[s].Text, known[s].ID, knownHit[s], knownEx[s])
 	}
 
 	// evidence
